@@ -651,6 +651,82 @@ def real_sorted_rows(name: str) -> list[list[int]] | None:
     return names
 
 
+# --------------------------------------------------------------------------- edited source files (round 5)
+#: one file name, the same in every interpreter, whose CONTENT changes between operations (a script that is edited and
+#: run again, importlib.reload, a notebook front end that reuses file names)
+EDIT_FILE = "/verif-c11/edited_project/algo.py"
+EDIT_NAMES = ["step", "helper", "tail", "main"]
+EDIT_OPS = ["+", "*", "-", "&", "//", "|"]
+_edit_counter = 0
+
+
+def edit_source(v: dict) -> str:
+    """text of one version of the edited file.  v = {shift, op, k, arity, bad, extra}"""
+    import feed
+    lines = [feed.PRELUDE.rstrip("\n")]
+    lines += [f"# edit {i}" for i in range(v.get("shift", 0))]
+    rhs = "1.5" if v.get("bad") else str(v.get("k", 1))
+    lines += ["", "@guppy", "def step(x: int) -> int:", f"    return x {v.get('op', '+')} {rhs}", ""]
+    if v.get("arity", 1) == 2:
+        lines += ["@guppy", "def helper(x: int, y: int) -> int:", "    return x // y", ""]
+    else:
+        lines += ["@guppy", "def helper(x: int) -> int:", "    return x - 3", ""]
+    if v.get("extra"):
+        lines += ["@guppy", "def tail(x: int) -> int:", f"    return x + {v.get('k', 1) + 6}", ""]
+    call = "helper(step(x), 7)" if v.get("arity", 1) == 2 else "helper(step(x))"
+    if v.get("extra"):
+        call += " + tail(x)"
+    lines += ["@guppy", "def main(x: int) -> int:", f"    return {call}", ""]
+    return "\n".join(lines)
+
+
+def edit_load(v: dict):
+    """(re-)execute the edited file with the content of version v: `inspect`/`linecache` report the new text for
+    the file name, the code runs in a fresh module namespace"""
+    global _edit_counter
+    import linecache
+    import types
+    import feed  # noqa: F401
+    src = edit_source(v)
+    linecache.cache[EDIT_FILE] = (len(src), None, src.splitlines(True), EDIT_FILE)
+    _edit_counter += 1
+    m = types.ModuleType(f"_verif_c11_edit_{_edit_counter}")
+    m.__file__ = EDIT_FILE
+    sys.modules[m.__name__] = m
+    exec(compile(src, EDIT_FILE, "exec"), m.__dict__)
+    return m
+
+
+def lower_obs(defn) -> dict:
+    import c11_canon
+    import feed
+    try:
+        g = feed.lower(defn)
+    except BaseException as e:  # noqa: BLE001
+        return _err_obs(e)
+    c = c11_canon.canon(g.hugr)
+    return {"kind": "hugr", "digest": c11_canon.digest(c), "nodes": len(c["nodes"])}
+
+
+def check_obs(defn) -> dict:
+    try:
+        defn.check()
+        return {"kind": "ok"}
+    except BaseException as e:  # noqa: BLE001
+        return _err_obs(e)
+
+
+def edit_observe(v: dict) -> dict:
+    """load version v and observe `check` and `compile` of every function it defines"""
+    m = edit_load(v)
+    out = {}
+    for n in EDIT_NAMES:
+        if hasattr(m, n):
+            out["check:" + n] = check_obs(getattr(m, n))
+            out["lower:" + n] = lower_obs(getattr(m, n))
+    return out
+
+
 if __name__ == "__main__":
     if sys.argv[1] == "history":
         # run a whole history in THIS fresh interpreter: argv[2] = JSON {"ops": [[kind, name]...], "target": name}
@@ -662,6 +738,13 @@ if __name__ == "__main__":
         if req.get("tmp_reset_before_target"):
             COUNTER.n = 0  # diagnosis only: is the %tmp counter the cause of a difference?
         print(json.dumps({"ops": outs, "final": run_op([req.get("observe", "lower"), req["target"]])}))
+    elif sys.argv[1] == "edit":
+        # argv[2] = JSON {"hist": [v, ...], "final": v}: every version of `hist` is loaded and all its functions are
+        # checked and compiled, then `final` is loaded and observed (hist = []: a fresh session)
+        req = json.loads(sys.argv[2])
+        for v in req["hist"]:
+            edit_observe(v)
+        print(json.dumps({"final": edit_observe(req["final"])}))
     elif sys.argv[1] == "fresh":
         import feed  # noqa: F401  (bootstrap)
         out = {}
